@@ -76,22 +76,32 @@ def r1_left_context(ctx, rid):
                         and isinstance(st.value, ast.Subscript) and isinstance(st.value.value, ast.Name) and st.value.value.id == recv \
                         and not isinstance(st.value.slice, ast.Slice):
                     carried[st.targets[0].id] = st
-            # the boundary decision: the `if` inside the loop whose test reads recv[...] characters
-            tests = [st for st in ast.walk(loop) if isinstance(st, ast.If) and any(
-                isinstance(x, ast.Subscript) and isinstance(x.value, ast.Name) and x.value.id == recv and not isinstance(x.slice, ast.Slice)
-                for x in ast.walk(st.test))]
-            names_in_tests = set()
-            for t in tests:
-                for x in ast.walk(t.test):
-                    if isinstance(x, ast.Name):
+            # the boundary decision: every name that (transitively, through assignments inside the loop) feeds a test of an
+            # if-statement / conditional expression of the loop; it must read single characters of the searched string
+            def reads_char(e):
+                return any(isinstance(x, ast.Subscript) and isinstance(x.value, ast.Name) and x.value.id == recv and not isinstance(x.slice, ast.Slice)
+                           for x in ast.walk(e))
+            seeds_ = [st.test for st in ast.walk(loop) if isinstance(st, (ast.If, ast.IfExp))]
+            names_in_tests, work, char_read, tests = set(), list(seeds_), False, []
+            seen_defs = set()
+            while work:
+                e = work.pop()
+                if reads_char(e):
+                    char_read = True
+                    tests.append(e)
+                for x in ast.walk(e):
+                    if isinstance(x, ast.Name) and x.id not in names_in_tests:
                         names_in_tests.add(x.id)
-                        v = single_def_value(ctx, f, x) if isinstance(x.ctx, ast.Load) else None
-                        if v is not None:
-                            names_in_tests |= {y.id for y in ast.walk(v) if isinstance(y, ast.Name)}
+                        for st in ast.walk(loop):
+                            if isinstance(st, ast.Assign) and id(st) not in seen_defs and any(isinstance(t, ast.Name) and t.id == x.id for t in st.targets):
+                                seen_defs.add(id(st))
+                                work.append(st.value)
+            if not char_read:
+                tests = []
             # a carried character must (a) be taken before the cut in the same iteration and (b) feed the boundary test
             good = [nm for nm, st in carried.items() if nm in names_in_tests and nm != recv
                     and any(st.lineno <= c.lineno for c in cuts)]
-            facts = {"searched": recv, "cut": [norm(c) for c in cuts], "carried": sorted(carried), "boundary_tests": [norm(t) for t in tests]}
+            facts = {"searched": recv, "cut": [norm(c) for c in cuts], "carried": sorted(carried), "boundary_tests": [ast.unparse(t)[:100] for t in tests]}
             if not tests:
                 raise AnalysisError(f"{rid}: {f.qual}: boundary test of the search loop not recognised")
             if good:
@@ -300,37 +310,77 @@ def r4_edits_use_boundary_aware_helper(ctx, rid):
 
 
 def r5_dump_key_is_free(ctx, rid):
+    """add_to_dict(template, template_dict, full_dict): the key the definition is stored under must be unused or hold an EQUAL
+    definition.  The loop test is read as a propositional formula over A = (key in full_dict), E = (full_dict[key] == template_dict),
+    I = (identity instead of equality); on loop exit (test false) A -> E must follow."""
+    from sympy import Symbol, And, Or, Not
+    from sympy.logic.inference import satisfiable
     f = ctx.repo.get_func(FD, "add_to_dict")
+    ctx.require(len(f.params) >= 3, f"{rid}: add_to_dict signature changed")
+    tdict, full = f.params[1], f.params[2]
     cfg = ctx.cfg(f)
     stores = [st for st in cfg.stmts() if isinstance(st, ast.Assign) and len(st.targets) == 1 and isinstance(st.targets[0], ast.Subscript)
-              and isinstance(st.targets[0].value, ast.Name) and st.targets[0].value.id == "full_dict"]
+              and isinstance(st.targets[0].value, ast.Name) and st.targets[0].value.id == full]
     if len(stores) != 1 or not isinstance(stores[0].targets[0].slice, ast.Name):
-        raise AnalysisError(f"{rid}: store into full_dict not recognised")
+        raise AnalysisError(f"{rid}: store into {full} not recognised")
     store = stores[0]
     key = store.targets[0].slice.id
-    # the nearest dominating membership test of that key
-    tests = [d for d in cfg.stmts() if isinstance(d, (ast.If, ast.While)) and any(
-        isinstance(c, ast.Compare) and isinstance(c.left, ast.Name) and c.left.id == key and isinstance(c.ops[0], ast.In)
-        and isinstance(c.comparators[0], ast.Name) and c.comparators[0].id == "full_dict" for c in ast.walk(d.test))]
+    A, E, I = Symbol("key_in_dict"), Symbol("equal_definition"), Symbol("same_object")
+
+    def formula(t):
+        if isinstance(t, ast.UnaryOp) and isinstance(t.op, ast.Not):
+            x = formula(t.operand)
+            return None if x is None else Not(x)
+        if isinstance(t, ast.BoolOp):
+            xs = [formula(v) for v in t.values]
+            if any(x is None for x in xs):
+                return None
+            return And(*xs) if isinstance(t.op, ast.And) else Or(*xs)
+        if isinstance(t, ast.Compare) and len(t.ops) == 1:
+            l, op, r = t.left, t.ops[0], t.comparators[0]
+            is_key = lambda e: isinstance(e, ast.Name) and e.id == key
+            is_full = lambda e: (isinstance(e, ast.Name) and e.id == full) or (isinstance(e, ast.Call) and call_name(e) == "keys" and isinstance(e.func, ast.Attribute)
+                                                                                 and isinstance(e.func.value, ast.Name) and e.func.value.id == full)
+            if is_key(l) and is_full(r) and isinstance(op, (ast.In, ast.NotIn)):
+                return A if isinstance(op, ast.In) else Not(A)
+            def is_entry(e):
+                return (isinstance(e, ast.Subscript) and isinstance(e.value, ast.Name) and e.value.id == full and is_key(e.slice)) or \
+                       (isinstance(e, ast.Call) and call_name(e) == "get" and isinstance(e.func, ast.Attribute) and isinstance(e.func.value, ast.Name)
+                        and e.func.value.id == full and e.args and is_key(e.args[0]))
+            is_td = lambda e: isinstance(e, ast.Name) and e.id == tdict
+            if (is_entry(l) and is_td(r)) or (is_td(l) and is_entry(r)):
+                if isinstance(op, (ast.Eq, ast.NotEq)):
+                    return E if isinstance(op, ast.Eq) else Not(E)
+                if isinstance(op, (ast.Is, ast.IsNot)):
+                    return I if isinstance(op, ast.Is) else Not(I)
+        return None
+    tests = [d for d in cfg.stmts() if isinstance(d, (ast.If, ast.While)) and any(isinstance(n, ast.Name) and n.id == key for n in ast.walk(d.test))
+             and any(isinstance(n, ast.Name) and n.id == full for n in ast.walk(d.test))]
     if not tests:
-        ctx.violation(rid, f, store, "the dump key is never tested against the keys already used: a second, different definition of the same name overwrites the first")
+        ctx.violation(rid, f, store, "the dump key is never tested against the keys already used: a second, different definition of the same name overwrites the first",
+                      label="dump key is free")
         return
     t = sorted(tests, key=lambda s: s.lineno)[-1]
     rebinding = [st for st in ast.walk(t) if isinstance(st, ast.Assign) and any(key in [x.id for x in ast.walk(tg) if isinstance(x, ast.Name)] for tg in st.targets)]
     facts = {"test": norm(t), "rebinding": [norm(r) for r in rebinding]}
-    if isinstance(t, ast.While) and rebinding:
-        ctx.ok(rid, f, store, "the key is re-derived in a loop until it is unused or holds an equal definition", facts)
-    elif not rebinding:
-        ctx.violation(rid, f, store, "a colliding dump key is detected but not replaced", facts)
-    else:
+    fm = formula(t.test)
+    if fm is None:
+        raise AnalysisError(f"{rid}: unrecognised collision test `{ast.unparse(t.test)}` in add_to_dict")
+    if not rebinding:
+        ctx.violation(rid, f, store, "a colliding dump key is detected but not replaced", facts, label="dump key is free")
+    elif not isinstance(t, ast.While):
         ctx.violation(rid, f, store, "the replacement key derived after a collision is not itself tested against the dump dictionary "
-                                     "(single `if`): a third variant of the same template overwrites the second", facts)
-    # equality, not identity, decides whether a definition can be shared
-    eq = [c for c in ast.walk(t.test) if isinstance(c, ast.Compare) and isinstance(c.ops[0], (ast.NotEq, ast.Eq, ast.Is, ast.IsNot))]
-    if eq and isinstance(eq[0].ops[0], (ast.NotEq, ast.Eq)):
-        ctx.ok(rid, f, t, "definitions are compared by value", nontrivial=False)
-    elif eq:
-        ctx.violation(rid, f, t, "definitions are compared by identity: equal variants are never shared and unequal ones ...", facts)
+                                     "(single `if`): a third variant of the same template overwrites the second", facts, label="dump key is free")
+    else:
+        # on exit the test is false: key taken by a different definition must be impossible
+        if satisfiable(And(Not(fm), A, Not(E), Not(I))):
+            ctx.violation(rid, f, store, "the loop that re-derives the dump key can exit while the key is taken by a different definition "
+                                         "(that definition is overwritten)", facts, label="dump key is free")
+        elif I in fm.free_symbols and satisfiable(And(Not(fm), A, E, Not(I))) is False:
+            ctx.violation(rid, f, t, "definitions are compared by identity: equal variants are never shared and every dump of the same "
+                                     "definition gets a new key", facts, label="dump key is free")
+        else:
+            ctx.ok(rid, f, store, "the key is re-derived in a loop until it is unused or holds an equal definition", facts, label="dump key is free")
 
 
 def r6_loader_derivation(ctx, rid):
@@ -341,7 +391,7 @@ def r6_loader_derivation(ctx, rid):
         raise AnalysisError(f"{rid}: from_yaml: expected one update_template call")
     c = calls[0]
     recv = c.func.value
-    v = single_def_value(ctx, f, recv) if isinstance(recv, ast.Name) else None
+    v = single_def_value(ctx, f, recv) if isinstance(recv, ast.Name) else recv
     ok_recv = isinstance(v, ast.Call) and call_name(v) == "from_yaml"
     loaded = _loaded_dict_name(f)
     ok_args = len(c.keywords) == 1 and c.keywords[0].arg is None and ast.unparse(c.keywords[0].value) == loaded and not c.args
